@@ -201,13 +201,13 @@ def extract(repo, o):
             "cnary.shift_xx with the sex given: what is added to the log2 of one bin", given={"is_xx"})
     _boolfn(o, tree, "expect_flat_log2", "src_expect_flat",
             "cnary.expect_flat_log2 with the reference sex given: the value of one bin", given={"is_haploid_x_reference"})
-    _boolfn(o, tree, "chr_x_filter", "src_chr_x_filter_par", "cnary.chr_x_filter, a PAR genome given",
+    _boolfn(o, tree, "chr_x_filter", "src_sex_chr_x_filter_par", "cnary.chr_x_filter, a PAR genome given",
             given={"diploid_parx_genome"})
-    _boolfn(o, tree, "chr_x_filter", "src_chr_x_filter", "cnary.chr_x_filter, no PAR genome",
+    _boolfn(o, tree, "chr_x_filter", "src_sex_chr_x_filter", "cnary.chr_x_filter, no PAR genome",
             absent={"diploid_parx_genome"})
-    _boolfn(o, tree, "chr_y_filter", "src_chr_y_filter_par", "cnary.chr_y_filter, a PAR genome given",
+    _boolfn(o, tree, "chr_y_filter", "src_sex_chr_y_filter_par", "cnary.chr_y_filter, a PAR genome given",
             given={"diploid_parx_genome"})
-    _boolfn(o, tree, "chr_y_filter", "src_chr_y_filter", "cnary.chr_y_filter, no PAR genome",
+    _boolfn(o, tree, "chr_y_filter", "src_sex_chr_y_filter", "cnary.chr_y_filter, no PAR genome",
             absent={"diploid_parx_genome"})
     try:
         csc = find_func(tree, "compare_sex_chromosomes", cls="CopyNumArray")
